@@ -5,7 +5,7 @@
    `variant_now` and the shape tables are regenerated from pkg/cmdutils/visitor.go on every run (Gen/SeqShape.v). *)
 From Coq Require Import String List NArith Bool.
 Import ListNotations.
-Require Import Verif.Seq.SeqModel Verif.Seq.SeqFlat Verif.Seq.SeqProps Verif.Seq.SeqShapeProps Verif.Gen.SeqShape.
+Require Import Verif.Seq.SeqModel Verif.Seq.SeqFlat Verif.Seq.SeqProps Verif.Seq.SeqTree Verif.Seq.SeqBoxes Verif.Seq.SeqShapeProps Verif.Gen.SeqShape.
 
 (* ---- obligations against the current source ---- *)
 Theorem C13_source_shape_known : shape_known = true.
@@ -75,15 +75,51 @@ Theorem C13_sender_active_refuted_before_repair :
 Proof. exact seq_sender_active_refuted_when_unguarded. Qed.
 Print Assumptions C13_sender_active_refuted_before_repair.
 
-(* ---- the call arrows are exactly the reference walk: calls reachable from the start(s), depth first in source
-   order, a call already in progress (or black-boxed) shown but not expanded ---- *)
+(* ---- the call arrows are exactly the call tree: `walks_entries` is an inductive relation WITHOUT fuel - per start
+   entry the depth-first walk of the call statements in source order, an endpoint already on the stack (or
+   black-boxed, or without statements) shown but not expanded. Holds for every run that returns a diagram, whatever
+   its fuel; the relation is functional, so these are THE arrows. ---- *)
 Theorem C13_follows_calls : forall V m fuel bbs starts d ev,
+  gen V m fuel bbs starts = Ok (d, ev) -> walks_entries m starts (make_bbs bbs) starts (arrows ev).
+Proof. exact seq_follows_call_tree. Qed.
+Print Assumptions C13_follows_calls.
+
+Theorem C13_call_tree_functional : forall m all bbs es x y,
+  walks_entries m all bbs es x -> walks_entries m all bbs es y -> x = y.
+Proof. exact walks_entries_functional. Qed.
+Print Assumptions C13_call_tree_functional.
+
+(* more fuel never changes a result; beyond one level per endpoint the fuel is irrelevant *)
+Theorem C13_fuel_monotone : forall V m f f' bbs starts,
+  f <= f' -> gen V m f bbs starts <> OutOfFuel -> gen V m f' bbs starts = gen V m f bbs starts.
+Proof. exact seq_fuel_monotone. Qed.
+Print Assumptions C13_fuel_monotone.
+
+Theorem C13_fuel_irrelevant : forall V m f f' bbs starts,
+  n_endpoints m < f -> n_endpoints m < f' -> gen V m f bbs starts = gen V m f' bbs starts.
+Proof. exact seq_fuel_irrelevant. Qed.
+Print Assumptions C13_fuel_irrelevant.
+
+(* the executable reference walk used by the tests (fuelled, at the run's fuel) *)
+Theorem C13_follows_reference_walk : forall V m fuel bbs starts d ev,
   gen V m fuel bbs starts = Ok (d, ev) -> arrows ev = ref_entries m fuel starts (make_bbs bbs) starts.
 Proof. exact seq_follows_calls. Qed.
-Print Assumptions C13_follows_calls.
+Print Assumptions C13_follows_reference_walk.
 
 (* ---- every participant used in the body is declared in the head, and no participant is declared twice ---- *)
 Theorem C13_declared_once : forall V m fuel bbs starts d ev,
   gen V m fuel bbs starts = Ok (d, ev) -> NoDup (map fst d) /\ forall x, In x (parts ev) -> In x (map fst d).
 Proof. exact seq_declared_once. Qed.
 Print Assumptions C13_declared_once.
+
+(* ---- group boxes (option groupby; `groups` = application -> value of the attribute): no box twice; a box holds
+   exactly the declared participants with that value, each once; every participant is in exactly one box, or - without
+   a value - in none ---- *)
+Theorem C13_group_boxes : forall V m fuel bbs starts groups d ev bx,
+  gen V m fuel bbs starts = Ok (d, ev) -> gen_boxes V m fuel bbs starts groups = Ok bx ->
+  NoDup (map fst bx)
+  /\ (forall g mem, In (g, mem) bx -> NoDup mem /\ forall x, In x mem <-> In x (map fst d) /\ group_of groups x = Some g)
+  /\ (forall x g, In x (map fst d) -> group_of groups x = Some g -> exists mem, In (g, mem) bx /\ In x mem)
+  /\ (forall x g mem g' mem', In (g, mem) bx -> In x mem -> In (g', mem') bx -> In x mem' -> g = g' /\ mem = mem').
+Proof. exact seq_boxes. Qed.
+Print Assumptions C13_group_boxes.
